@@ -68,6 +68,11 @@ type VC struct {
 	witness map[string]string // human name -> term (entry-state values to report in models)
 	declared map[string]bool
 	lockTerms []string
+	frameFr *Frame
+	framePos token.Pos
+	frameWhole map[string]bool
+	frameObjs map[string][]string
+	primaryClass string
 	defCache map[string]string
 	factCache map[string]bool
 	eventNames map[string]bool
